@@ -35,6 +35,8 @@ def sig_c09(f):
         return "vardir:include-dir-stamped-into-shared-vars"
     if k == "R_c09_det":
         cl = d.get("c09") or []
+        if cl == ["listing-order"]:
+            return "nondet:listing-order"   # same table, the --list / --list-all (--json) listing comes in another order
         if cl == ["compiled-only"]:
             return "nondet:compiled-only"   # same table, different evaluated variables / stamped directories
         if cl and set(cl) <= _ORDER_CLASSES:
@@ -58,7 +60,7 @@ PROPS = {
         more_src=["Properties/C08Current.v"],
         support=["Merge/Model.vo", "Merge/Spec.vo"], run_targets=["Run/MergeCases.vo"],
         drivers=[dict(name="merge", extra="mode=c08", n_quick=240, n_thorough=3000, shard=30,
-                      results={"R_read": "agree", "R_merge": "agree", "R_wf": "agree", "R_vardir": "mon",
+                      results={"R_read": "agree", "R_merge": "agree", "R_wf": "agree", "R_vardir": "mon", "R_listing": "mon",
                                "R_c08_present": "mon", "R_c08_refs": "mon", "R_c08_attrs": "mon", "R_c08_place": "mon",
                                "R_c08_aliases": "mon", "R_c08_default": "mon", "R_c08_dropped": "mon", "R_c08_errors": "mon", "R_c08_exec": "mon",
                                "R_c08_deepcopy": "mon"})],
@@ -81,11 +83,11 @@ PROPS = {
         more_src=["Properties/C09Current.v"],
         support=["Merge/Model.vo", "Merge/Spec.vo"], run_targets=["Run/MergeCases.vo"],
         drivers=[dict(name="merge", extra="mode=c09", n_quick=80, n_thorough=1000, shard=10,
-                      results={"R_read": "agree", "R_merge": "agree", "R_wf": "agree", "R_vardir": "mon", "R_c09_det": "mon", "R_c09_stable": "mon"})],
+                      results={"R_read": "agree", "R_merge": "agree", "R_wf": "agree", "R_vardir": "mon", "R_listing": "mon", "R_c09_det": "mon", "R_c09_stable": "mon", "R_c09_place": "mon"})],
         signature=sig_c09,
         rule="a case = one generated include tree (3-5 files, mostly siblings of the root with overlapping variable and task names, diamonds, the same file twice) loaded 40 times by Executor.Setup in one process; "
              "each load is dumped canonically (task table in order with every field, vars, env, output, plus fast-compiled command lines and variable values, and the working directory stamped on every global variable). "
-             "R_c09_det (monitor): all 40 dumps are identical. R_c09_stable (monitor of C09_partial): all dumps agree on the set of keys and, per origin, on commands, deps, dir, include vars and every attribute. R_merge: every distinct dump is one of the model's outcomes merge_all current_variant G pi sigma (pi over all topological orders, sigma over all edge orders). "
+             "R_c09_det (monitor): all 40 dumps are identical; a dump includes the names, in printed order, of --list-all --json --no-status, --list-all --json, --list-all and --list --json (Executor.ListTasks as the CLI calls it). R_listing (monitor): each listing equals the function of the merged table stated in Merge/Spec.v (listed: keys sorted root-tasks-first then bytewise, internal tasks dropped, label or Task printed). R_c09_place: the C08 placement monitor on these trees. Every 12th tree: a file included several times with different dir: that has a nested long-form include without dir:. R_c09_stable (monitor of C09_partial): all dumps agree on the set of keys and, per origin, on commands, deps, dir, include vars and every attribute. R_merge: every distinct dump is one of the model's outcomes merge_all current_variant G pi sigma (pi over all topological orders, sigma over all edge orders). "
              "Every 3rd tree is directed: a file reached through two include statements passing different vars (the same file twice, diamond) has a nested include whose taskfile:/dir: is a template over a variable set by the include statements (not visible there: the default applies), by the environment, by the file's own globals or by the root's globals; the model predicts the resolved path (R_read) and the 40 loads must agree. Every 6th tree is a diamond whose shared file is included once in long form with dir: and once in short form and has dynamic (sh:) globals: the digest holds the directory stamped on every variable (globals and IncludedTaskfileVars) and the value every dynamic variable evaluates to per task. "
              "distinct = distinct file sets",
         assumptions=_COMMON_ASSUME,
